@@ -24,6 +24,9 @@ func (vc *VC) callBuiltin(fx *FuncCtx, st *State, b *ssa.Builtin, args []Val, c 
 		mt := under(c.Args[0].Type()).(*types.Map)
 		m := st.toTerm(args[0], c.Args[0].Type())
 		k := vc.mapKeyTerm(st, mt, args[1])
+		if gp := vc.guardedMaps[termKey(m)]; gp != nil && instr != nil {
+			vc.lockCheck(fx, st, gp, true, instr.Pos())
+		}
 		vc.mapDelete(st, mt, m, k)
 		return nil
 	case "close":
